@@ -56,6 +56,7 @@ type conn struct {
 	epoch int
 	// commit fault armed by the simulated store just before the real code commits
 	commitFault FaultKind
+	lastTry     bool // result of the last pg_try_advisory_* call
 }
 
 func (c *conn) Prepare(string) (driver.Stmt, error) {
@@ -109,7 +110,7 @@ var (
 	reSavepoint = regexp.MustCompile(`^SAVEPOINT (\S+)$`)
 	reRelease   = regexp.MustCompile(`^RELEASE SAVEPOINT (\S+)$`)
 	reRollback  = regexp.MustCompile(`^ROLLBACK TO SAVEPOINT (\S+)$`)
-	reAdv       = regexp.MustCompile(`(?i)^SELECT (pg_advisory_lock|pg_advisory_xact_lock|pg_advisory_unlock)\((?:hashtext\('([^']*)'\)|(\d+))\)$`)
+	reAdv       = regexp.MustCompile(`(?i)^SELECT (pg_advisory_lock|pg_advisory_xact_lock|pg_try_advisory_lock|pg_try_advisory_xact_lock|pg_advisory_unlock)\((?:hashtext\('([^']*)'\)|(\d+))\)$`)
 	reUpdState  = regexp.MustCompile(`^UPDATE "_system"\."ledgers" AS "ledgers" SET state = '([^']*)' WHERE \(id = (\d+) and state = '([^']*)'\)$`)
 	reSetval    = regexp.MustCompile(`^select setval\(\s*'("[^"]*"\."[^"]*")',\s*\(\s*select max\(id\) from "([^"]*)"\.(\w+) where ledger = '([^']*)'\s*\)::bigint\s*\)$`)
 	reSelLedger = regexp.MustCompile(`^SELECT (.*) FROM "_system"\."ledgers" AS "ledgers" WHERE \(id = (\d+)\)$`)
@@ -172,6 +173,12 @@ func (c *conn) ExecContext(ctx context.Context, query string, args []driver.Name
 			return execResult{}, c.w.runStmt(ctx, c, func() error { return c.sess.advLockStmt(key, false) })
 		case "pg_advisory_xact_lock":
 			return execResult{}, c.w.runStmt(ctx, c, func() error { return c.sess.advLockStmt(key, true) })
+		case "pg_try_advisory_lock", "pg_try_advisory_xact_lock":
+			// never waits: the boolean it returns (false = somebody else holds it) goes to the caller through
+			// QueryContext; an Exec discards it, as PostgreSQL does
+			got, err := c.sess.advTryLockStmt(key, strings.ToLower(m[1]) == "pg_try_advisory_xact_lock")
+			c.lastTry = got
+			return execResult{}, err
 		default:
 			_, err := c.sess.advUnlockStmt(key)
 			return execResult{}, err
@@ -287,6 +294,9 @@ func (c *conn) QueryContext(ctx context.Context, query string, args []driver.Nam
 		if _, err := c.ExecContext(ctx, query, args); err != nil {
 			return nil, err
 		}
+		if strings.Contains(strings.ToLower(q), "pg_try_advisory") {
+			return &simRows{cols: []string{"result"}, data: [][]driver.Value{{c.lastTry}}}, nil
+		}
 		return &simRows{cols: []string{"result"}, data: [][]driver.Value{{nil}}}, nil
 	}
 	if c.w.realSQL || ctx.Value(sysSQLKey) != nil {
@@ -334,6 +344,7 @@ func (c *conn) driverYield(ctx context.Context, op, note string, kinds []FaultKi
 // sqlStatement: real-SQL mode. The statement text built by the real storage code is parsed, becomes a
 // yield point (scheduling decision, fault site), and is interpreted over simpg on this connection's session.
 func (c *conn) sqlStatement(ctx context.Context, query string) (*sqlResult, error) {
+	c.w.auditRead(ctx, query)
 	stmt, err := parseSQL(query)
 	if err != nil {
 		return nil, c.w.unsupportedSQL(ctx, err, query)
